@@ -47,6 +47,30 @@ Fixpoint spec_read_outcomes (class : qread_err -> option h3_stream_err) (answers
               end
   end.
 
+(* What the application sees over a whole sequence of `polls` reads, given the answers Quinn has in store.
+   A read that finds Quinn blocked (or out of answers) yields nothing.  Once a read has reported the peer's
+   RESET_STREAM (code c), every later read reports that same reset again and Quinn is not asked any more:
+   Quinn itself answers reads after the one that reported the reset with a clean end of stream, which must
+   never reach the application (it would take a truncated message for a complete one).
+   Result: the outcomes in order, and the answers Quinn still has in store. *)
+Fixpoint spec_reads (class : qread_err -> option h3_stream_err) (seen : option N) (polls : nat) (o : list ranswer)
+  : list read_outcome * list ranswer :=
+  match polls with
+  | O => ([], o)
+  | S n =>
+      match seen with
+      | Some c => let '(rest, o') := spec_reads class seen n o in (RoError (Some (HStreamTerminated c)) :: rest, o')
+      | None =>
+          match o with
+          | [] => spec_reads class None n []
+          | a :: o1 =>
+              let seen' := match a with RFail (QRReset c) => Some c | _ => None end in
+              let '(rest, o') := spec_reads class seen' n o1 in
+              (match spec_read_outcome class a with Some x => x :: rest | None => rest end, o')
+          end
+      end
+  end.
+
 (* ------------------------------------------------------------- identifiers *)
 (* RFC 9000 2.1: the id of the index-th stream of a kind; what both send_id and recv_id must report,
    in every state, for the whole life of the stream *)
@@ -143,6 +167,16 @@ Inductive fault :=
 | FIdleTimeout               (* nothing received for max_idle_timeout *)
 | FLocalClose                (* this side closed the connection *)
 | FLocalFinished             (* this side already finished / stopped the stream *).
+
+(* Quinn's write errors are final (trusted like the conditions below, observed on real Quinn in every run of the qw
+   family with sa=K): once poll_write has failed - the peer stopped the stream, the connection is lost, the stream is
+   finished or reset - every later poll_write on that stream fails with the same error again *)
+Fixpoint fail_is_final (o : list wanswer) : Prop :=
+  match o with
+  | [] => True
+  | WFail e :: r => Forall (fun a => a = WFail e) r
+  | _ :: r => fail_is_final r
+  end.
 
 Definition quinn_write_condition (f : fault) : option qwrite_err :=
   match f with
